@@ -21,6 +21,9 @@ import LitexModel.Export.MemImage
   call memimage <big> <q> <baseOff> <b0> <b1> ...            -> words of get_mem_data
   call imagebytes <big> <q> <n> <w0> <w1> ...                -> the n bytes a CPU reads from the image
   call sramsel <paging> <page> <depth> <pv> <adr>            -> <page register bits> <word | ->  (CSR memory window)
+  call sramwide <paging> <page> <depth> <n> <pv> <adr>        -> <word> <sub-word> | -   (memory word n bus words wide)
+  call wideword <dw> <s0> <s1> ...                           -> memory word assembled from the sub-words (address order)
+  call widesub <dw> <n> <word> <k>                           -> sub-word k read back
   call fieldextract <offset> <size> <word>
   call accepts <alignment> <aw> <paging> <busword> ; <bank> ; ...   -> ok | rejected   (SoCError at build time)
   call nlocs <alignment> <aw> <paging>
@@ -63,6 +66,10 @@ def call (args : List String) : Option String :=
       (mems.zipIdx.filterMap fun (m, k) =>
         match m with
         | [page, depth, pv] => (sramSel pg page depth pv adr).map fun w => s!"{adr}:M{k}:{w}"
+        | [page, depth, pv, n] =>
+          match sramSelWide pg page depth n pv adr with
+          | some (w, sub) => if sub + 1 = n then some s!"{adr}:M{k}:{w}" else none
+          | none => none
         | _ => none)
     some (if hits.isEmpty then "-" else unwords hits)
   | "accread" :: bw :: nw :: ws => do
@@ -92,6 +99,13 @@ def call (args : List String) : Option String :=
     match sramSel pg (← page.toNat?) depth (← pv.toNat?) (← adr.toNat?) with
     | some w => some s!"{sramPageBits pg depth} {w}"
     | none => some s!"{sramPageBits pg depth} -"
+  | ["sramwide", pg, page, depth, n, pv, adr] => do
+    match sramSelWide (← pg.toNat?) (← page.toNat?) (← depth.toNat?) (← n.toNat?) (← pv.toNat?) (← adr.toNat?) with
+    | some (w, sub) => some s!"{w} {sub}"
+    | none => some "-"
+  | "wideword" :: dw :: subs => do some (toString (wideWord (← dw.toNat?) (← parseNats subs)))
+  | ["widesub", dw, n, word, k] => do
+    some (toString (wideSub (← dw.toNat?) (← n.toNat?) (← word.toNat?) (← k.toNat?)))
   | ["fieldextract", off, size, word] => do
     some (toString (fieldExtract (← off.toNat?) (← size.toNat?) (← word.toNat?)))
   | "accepts" :: al :: aw :: pg :: bw :: rest => do
